@@ -6,6 +6,7 @@ server against exactly this specification on every run, and Iggy/Log/Refine.lean
 storage model L1 to it.
 -/
 import Iggy.Log.SpecRun
+import Iggy.Log.RefineRun
 namespace Iggy.Props.C01
 open Iggy.Log
 
@@ -57,5 +58,28 @@ theorem next_after_purge_drop_restart (p : SPart) (n : Nat) :
 
 /-! non-vacuity: a concrete history (two batches, a dedup drop, a retention drop, a restart) -/
 example : (SPart.run exCfg none exHist).msgs.map (·.off) = [1, 2] ∧ (SPart.run exCfg none exHist).next = 3 := by decide
+
+
+/-! ## the same on the storage model L1 (segments, accumulator, index files, cache)
+`Reach cfg p`: `p` is reachable from `Part.create` by any number of append / flush / save / restart /
+purge / expire / delete-oldest / evict / offset operations (Iggy/Log/Refine.lean). -/
+
+/-- C01 on L1: in every reachable storage state the retained offsets are `lo..next-1`, gap-free and
+duplicate-free, across roll-overs, flushes, saves, retention and restarts -/
+theorem l1_offsets_consecutive {cfg : Cfg} {p : Part} (hseg : 0 < cfg.segSize) (r : Reach cfg p) :
+    ∃ lo, p.msgs.map (·.off) = List.range' lo p.msgs.length ∧ lo + p.msgs.length = p.next :=
+  reach_offsets_consecutive hseg r
+
+/-- C01 on L1: a send is never rejected by the storage layer in a reachable state, and it does to the
+abstract log exactly what the specification's append does (consecutive offsets from `next`) -/
+theorem l1_append_refines {cfg : Cfg} {p : Part} (hseg : 0 < cfg.segSize) (r : Reach cfg p) {now : Nat}
+    {msgs : List InMsg} (hsz : ∀ m ∈ msgs, 0 < m.size) (hts : ∀ m ∈ p.msgs, m.ts ≤ now) :
+    ∃ p', p.append cfg now msgs = .ok p' ∧ Reach cfg p' ∧ abs p' = (abs p).append now msgs :=
+  r.append_ok hseg hsz hts
+
+/-- every reachable L1 state abstracts to a reachable L2 state: all statements above about
+`SPart.run` hold of the storage model -/
+theorem l1_simulates {cfg : Cfg} {p : Part} (hseg : 0 < cfg.segSize) (r : Reach cfg p) :
+    ∃ e0 sops, abs p = SPart.run cfg e0 sops := r.simulates hseg
 
 end Iggy.Props.C01
